@@ -251,25 +251,25 @@ NONE_TABLE = [
 
 # (function qual regex, denominator text regex) -> reason (contract / positive-by-construction)
 DIV_TABLE = [
-    (r"^distributor\.Distributor\.algorithm_simple$", r"^numLayers$", "algorithm_simple runs only when needToSplit(): estimateRequiredLayers() > 1 (C04.DISTRIBUTE)"),
-    (r"^distributor\.Distributor\.estimateRequiredLayers$", r"^self\.maxWidthPerLayer\(\)$", "guarded by `if layerWidth` and density > 0 (documented)", "self.options['layerWidth']"),
-    (r"^scale\.TimeScale\.tickMethod$", r"^count$", "documented contract: tick count >= 1"),
-    (r"^scale\.TimeScale\.tickMethod$", r"^target$", "reached only with i >= 1 (the `not i` branch returns first), i.e. target >= steps[0] > 0 (C16.CHOICE)"),
-    (r"^scale\.TimeScale\.tickMethod$", r"^d3_time_scaleSteps\[i - 1\]$", "table constants are positive (C16.TABLES)"),
-    (r"^scale\.d3TimeScaleMilliseconds\.range$", r"^int\(step\)$", "ticks() passes a step >= 1 (C16.SUBMS)"),
-    (r"^scale\.d3_scale_linearTickRange$", r"^step$", "step = 10^k x {1,2,5,10} > 0 by construction (C13.P125)"),
-    (r"^scale\.d3_scale_linearTickRange$", r"^m$", "documented contract: tick count >= 1"),
-    (r"^timeline\.Timeline\.colorFunc$", r"^len\(self\.options\[colorName\]\)$", "documented contract: a colour list is non-empty"),
+    (r"(^|\.)Distributor\.algorithm_simple$", r"^numLayers$", "algorithm_simple runs only when needToSplit(): estimateRequiredLayers() > 1 (C04.DISTRIBUTE)"),
+    (r"(^|\.)Distributor\.estimateRequiredLayers$", r"^self\.maxWidthPerLayer\(\)$", "guarded by `if layerWidth` and density > 0 (documented)", "self.options['layerWidth']"),
+    (r"(^|\.)TimeScale\.tickMethod$", r"^count$", "documented contract: tick count >= 1"),
+    (r"(^|\.)TimeScale\.tickMethod$", r"^target$", "reached only with i >= 1 (the `not i` branch returns first), i.e. target >= steps[0] > 0 (C16.CHOICE)"),
+    (r"(^|\.)TimeScale\.tickMethod$", r"^d3_time_scaleSteps\[i - 1\]$", "table constants are positive (C16.TABLES)"),
+    (r"(^|\.)d3TimeScaleMilliseconds\.range$", r"^int\(step\)$", "ticks() passes a step >= 1 (C16.SUBMS)"),
+    (r"(^|\.)d3_scale_linearTickRange$", r"^step$", "step = 10^k x {1,2,5,10} > 0 by construction (C13.P125)"),
+    (r"(^|\.)d3_scale_linearTickRange$", r"^m$", "documented contract: tick count >= 1"),
+    (r"(^|\.)Timeline\.colorFunc$", r"^len\(self\.options\[colorName\]\)$", "documented contract: a colour list is non-empty"),
     (r"^vpsc\.", r"^(v|self)\.scale$", "documented contract: variable scales are positive"),
     (r"^vpsc\.PositionStats\.getPosn$", r"^self\.A2$", "A2 = sum of weight*(scale ratio)^2 over >= 1 variable, positive for positive weights"),
-    (r"^scale\.d3_scale_linearTickRange$", r"^math\.log\(10\)$", "constant"),
-    (r"^scale\.d3_scale_linearPrecision$", r"^math\.log\(10\)$", "constant"),
+    (r"(^|\.)d3_scale_linearTickRange$", r"^math\.log\(10\)$", "constant"),
+    (r"(^|\.)d3_scale_linearPrecision$", r"^math\.log\(10\)$", "constant"),
 ]
 LOG_TABLE = [
-    (r"^scale\.d3_scale_linearTickRange$", r"^span / m$", "span > 0 after the `span == 0` return (extent ascending), m >= 1"),
-    (r"^scale\.d3_scale_linearTickRange$", r"^10$", "constant"),
-    (r"^scale\.d3_scale_linearPrecision$", r"^value$", "guarded by `if not value`; value is a tick step > 0"),
-    (r"^scale\.d3_scale_linearPrecision$", r"^10$", "constant"),
+    (r"(^|\.)d3_scale_linearTickRange$", r"^span / m$", "span > 0 after the `span == 0` return (extent ascending), m >= 1"),
+    (r"(^|\.)d3_scale_linearTickRange$", r"^10$", "constant"),
+    (r"(^|\.)d3_scale_linearPrecision$", r"^value$", "guarded by `if not value`; value is a tick step > 0"),
+    (r"(^|\.)d3_scale_linearPrecision$", r"^10$", "constant"),
 ]
 
 
@@ -331,6 +331,51 @@ def _nonzero_guard(ctx, f, node, den):
         inner_node = g.node
         g = g.parent
     return None
+
+
+def _nonzero_param(ctx, f, den):
+    """The denominator is a parameter of f or of an enclosing (factory) function that is never reassigned, and every call
+    of that function in the package passes a non-zero numeric constant for it."""
+    if not isinstance(den, ast.Name):
+        return None
+    P = ctx.P
+    g = f
+    while g is not None and den.id not in g.params:
+        if den.id in ctx.types.locals.get(g.qual, ()):
+            return None
+        g = g.parent
+    if g is None or g.is_lambda or g.cls is not None:
+        return None
+    if any(isinstance(x, ast.Name) and x.id == den.id and isinstance(x.ctx, ast.Store) for x in ast.walk(g.node)):
+        return None
+    pi = g.params.index(den.id)
+    sites = []
+    for caller, lst in ctx.cg.sites.items():
+        for call, quals in lst:
+            if g.qual in quals:
+                sites.append(call)
+    # referenced as a value (could be called from anywhere)?
+    for m_ in P.modules.values():
+        for nd in ast.walk(m_.tree):
+            if isinstance(nd, ast.Name) and nd.id == g.name and isinstance(nd.ctx, ast.Load):
+                par = getattr(nd, "_parent", None)
+                if not (isinstance(par, ast.Call) and par.func is nd) and (m_ is g.module or nd.id in m_.imports):
+                    return None
+    if not sites:
+        return None
+    vals = []
+    for c in sites:
+        a = None
+        if len(c.args) > pi and not any(isinstance(x, ast.Starred) for x in c.args):
+            a = c.args[pi]
+        for k in c.keywords:
+            if k.arg == den.id:
+                a = k.value
+        v = const_value(a) if a is not None else None
+        if v is None or isinstance(v, (str, bool)) or v == 0:
+            return None
+        vals.append(v)
+    return "parameter `%s` of %s: every one of its %d call sites passes a non-zero constant (%s)" % (den.id, g.qual, len(sites), ", ".join(sorted({repr(v) for v in vals})[:4]))
 
 
 def _reparse(txt):
@@ -427,7 +472,7 @@ def divzero_sites(ctx, R, rule_id, reach):
             if c is False:
                 R.bad(rule_id, keyt, where(f, nd), "%s by the constant zero" % what)
                 continue
-            g = _nonzero_guard(ctx, f, nd, den)
+            g = _nonzero_guard(ctx, f, nd, den) or _nonzero_param(ctx, f, den)
             if g:
                 R.ok(rule_id, keyt, where(f, nd), "non-zero: " + g)
                 continue
@@ -977,13 +1022,108 @@ def _longest_cycle(graph, comp):
     return best
 
 
+def _registry_refined(ctx, graph):
+    """Object-sensitive view of the interval registry for cycle detection: every method of d3_time_interval is cloned per
+    registered unit, `self._local/_step/_number(...)` inside the clone of unit u goes to the closures registered for u (as
+    resolved by value-numbering the module's initialisation, whatever helper built the registry), and calls whose receiver
+    is written `d3_time[<constant>]` go to that unit's clone (other receivers: to every clone)."""
+    from .c17 import registry_closures, IV, UNITS
+
+    P = ctx.P
+    try:
+        ev, st, reg, cl = registry_closures(ctx)
+        ivc = P.cls(IV)
+    except (Undecided, AnchorMissing):
+        return graph
+    meths = {}
+    for f in ivc.methods.values():
+        meths[f.qual] = f
+    targets_all = set()
+    for u in UNITS:
+        for fld in ("_local", "_step", "_number"):
+            v = cl[u].get(fld)
+            if isinstance(v, Closure):
+                targets_all.add(v.func.qual)
+    G = {k: set(v) for k, v in graph.items()}
+    for u in UNITS:
+        for mq, m in meths.items():
+            outs = set()
+            for w in graph.get(mq, ()):
+                if w in targets_all:
+                    continue
+                outs.add(w + "@" + u if w in meths else w)
+            selfn = m.params[0] if m.params else None
+            for c in calls_in(m.node):
+                if isinstance(c.func, ast.Attribute) and isinstance(c.func.value, ast.Name) and c.func.value.id == selfn and c.func.attr in ("_local", "_step", "_number"):
+                    v = cl[u].get(c.func.attr)
+                    if isinstance(v, Closure):
+                        outs.add(v.func.qual)
+            G[mq + "@" + u] = outs
+    regname = "d3_time"
+
+    def reg_entry(call):
+        """Precise targets of `d3_time[<constant>](...)` / `d3_time[<constant>].method(...)` from the value-numbered registry."""
+        recv = call.func.value if isinstance(call.func, ast.Attribute) else call.func
+        if not (isinstance(recv, ast.Subscript) and isinstance(recv.value, ast.Name) and recv.value.id == regname and isinstance(recv.slice, ast.Constant)):
+            return None
+        if not isinstance(reg, DictV) or recv.slice.value not in reg.items:
+            return None
+        v = reg.items[recv.slice.value]
+        if isinstance(call.func, ast.Subscript) or call.func is recv:
+            if isinstance(v, Closure):
+                return {v.func.qual}
+            if isinstance(v, Bound) and isinstance(v.recv, Opaque):
+                for u in UNITS:
+                    if cl[u]["obj"].text == v.recv.text and P.method(ivc, v.name) is not None:
+                        return {P.method(ivc, v.name).qual + "@" + u}
+        return None
+
+    from ..sym import Bound
+
+    for caller, lst in ctx.cg.sites.items():
+        if caller in meths or caller not in G:
+            continue
+        new = {q for q in G[caller] if q not in meths}
+        precise_sites = [(call, quals, reg_entry(call)) for call, quals in lst]
+        if any(pr is not None for _, _, pr in precise_sites):
+            drop = set()
+            keep = set()
+            for call, quals, pr in precise_sites:
+                if pr is not None:
+                    drop |= set(quals)
+                else:
+                    keep |= set(quals)
+            new = {q for q in new if q not in drop or q in keep}
+            for call, quals, pr in precise_sites:
+                if pr is not None:
+                    new |= pr
+        for call, quals in lst:
+            if reg_entry(call) is not None:
+                continue
+            tg = [q for q in quals if q in meths]
+            if not tg:
+                continue
+            recv = call.func.value if isinstance(call.func, ast.Attribute) and P.method(ivc, call.func.attr) is not None else call.func
+            unit = None
+            if isinstance(recv, ast.Subscript) and isinstance(recv.value, ast.Name) and recv.value.id == regname and isinstance(recv.slice, ast.Constant) and recv.slice.value in UNITS:
+                unit = recv.slice.value
+            for q in tg:
+                for u in ([unit] if unit else UNITS):
+                    new.add(q + "@" + u)
+        G[caller] = new
+    for mq in meths:
+        G[mq] = set()
+    return G
+
+
 @rule("C11.RECURSION")
 def recursion(ctx, R):
     P = ctx.P
     cg = ctx.cg
     reach = export_reach(ctx)
-    graph = cg.precise
-    comps = cg.sccs(within=[q for q in reach if q in graph])
+    graph = _registry_refined(ctx, cg.out)
+    within = set(q for q in reach if q in graph) | {q for q in graph if "@" in q}
+    comps = cg._sccs(graph, within)
     LIMIT, CLUSTER, WALLS = 1000, 200, 2
     # entry depth: longest acyclic call chain from a root to the component (DAG over SCC condensation)
     allc = cg._sccs(graph, None)
@@ -1024,16 +1164,16 @@ def recursion(ctx, R):
         # known finding: recursion depth grows with the size of a conflict cluster
         tops = set()
         for q in comp:
-            g_ = P.funcs.get(q)
+            g_ = P.funcs.get(q.split("@")[0])
             while g_ is not None and g_.parent is not None:
                 g_ = g_.parent
             if g_ is not None:
                 tops.add(g_.qual)
         kkey = "recursive component {%s}" % ", ".join(sorted(tops))
-        R.bad("C11.RECURSION", kkey, P.funcs[sorted(comp)[0]].loc(), "block traversal is recursive (%d frames per level): clusters beyond ~%d labels exhaust the interpreter's recursion limit" % (frames, (LIMIT - 20) // max(frames, 1)))
+        R.bad("C11.RECURSION", kkey, P.funcs[sorted(comp)[0].split("@")[0]].loc(), "block traversal is recursive (%d frames per level): clusters beyond ~%d labels exhaust the interpreter's recursion limit" % (frames, (LIMIT - 20) // max(frames, 1)))
         entry = depth_to(comp)
         need = entry + frames * (CLUSTER + WALLS)
-        R.check(need <= LIMIT, "C11.RECURSION", "stack bound for %s" % kkey, P.funcs[sorted(comp)[0]].loc(), "entry depth %d + %d frames/level x %d levels = %d <= %d" % (entry, frames, CLUSTER + WALLS, need, LIMIT),
+        R.check(need <= LIMIT, "C11.RECURSION", "stack bound for %s" % kkey, P.funcs[sorted(comp)[0].split("@")[0]].loc(), "entry depth %d + %d frames/level x %d levels = %d <= %d" % (entry, frames, CLUSTER + WALLS, need, LIMIT),
                 "a conflict cluster of %d labels needs %d + %d x %d = %d stack frames > %d (default recursion limit): RecursionError inside the documented input domain" % (CLUSTER, entry, frames, CLUSTER + WALLS, need, LIMIT))
     R.check(len(comps) >= 1, "C11.RECURSION.inventory", "recursive components on the export call graph: %d" % len(comps), "", "", "", nontrivial=False)
 
